@@ -556,24 +556,36 @@ pub fn layouts(seed: u64, count: u64, outdir: &str, big: bool, ops_path: Option<
             let streams: Vec<String> = model.all_paths().into_iter().filter(|(_, s)| *s).map(|(p, _)| p).collect();
             let storages: Vec<String> = model.all_paths().into_iter().filter(|(p, s)| !*s && p != "/").map(|(p, _)| p).collect();
             let parent = if !storages.is_empty() && r.chance(1, 3) { r.pick(&storages).clone() } else { String::new() };
-            let line = match r.below(10) {
-                0..=3 => format!("put {} {}", enc(&format!("{}/{}", parent, r.pick(&pool))), hex(&pattern(*r.pick(SIZES), step))),
-                4 | 5 | 9 if !streams.is_empty() => format!("rm {}", enc(&r.pick(&streams)[..])),
-                6 => format!("mkdir {}", enc(&format!("{}/{}", parent, r.pick(&pool)))),
-                7 if !storages.is_empty() => format!("rmall {}", enc(&r.pick(&storages)[..])),
-                8 if !streams.is_empty() => format!("get {}", enc(&r.pick(&streams)[..])),
-                _ => "walk".to_string(),
-            };
-            let observed = real.exec(&line);
-            out.ops += 1;
-            writeln!(ops_out, "{}", line).unwrap();
-            writeln!(impl_out, "{} | {}", observed, catch(|| tail(&real)).unwrap_or_else(|_| "-".into())).unwrap();
-            if let Some(exp) = model.apply(&line) {
-                if exp != observed {
-                    out.violations.push(format!("layout {} (seed {}): after opening {}: step {}: {} gave {} but the abstract tree model says {}", k, seed, path, step, short(&line), short(&observed), short(&exp)));
-                    bad = true;
-                    break;
+            let lines: Vec<String> = match r.below(12) {
+                0..=3 => vec![format!("put {} {}", enc(&format!("{}/{}", parent, r.pick(&pool))), hex(&pattern(*r.pick(SIZES), step)))],
+                4 | 5 | 9 if !streams.is_empty() => vec![format!("rm {}", enc(&r.pick(&streams)[..]))],
+                6 => vec![format!("mkdir {}", enc(&format!("{}/{}", parent, r.pick(&pool))))],
+                7 if !storages.is_empty() => vec![format!("rmall {}", enc(&r.pick(&storages)[..]))],
+                8 if !streams.is_empty() => vec![format!("get {}", enc(&r.pick(&streams)[..]))],
+                // resize a stream the other writer laid out — the space behind its end is not zero in these files —
+                // to a (mini) sector boundary and read it back
+                10 | 11 if !streams.is_empty() => {
+                    let p = r.pick(&streams).clone();
+                    let target = *r.pick(&[64usize, 128, 192, 512, 1024, 1536, 4096, 4608, 8192, 12288]);
+                    vec![format!("hopen 7 {}", enc(&p)), format!("hsetlen 7 {}", target), "hclose 7".to_string(), format!("get {}", enc(&p))]
                 }
+                _ => vec!["walk".to_string()],
+            };
+            for line in lines {
+                let observed = real.exec(&line);
+                out.ops += 1;
+                writeln!(ops_out, "{}", line).unwrap();
+                writeln!(impl_out, "{} | {}", observed, catch(|| tail(&real)).unwrap_or_else(|_| "-".into())).unwrap();
+                if let Some(exp) = model.apply(&line) {
+                    if exp != observed {
+                        out.violations.push(format!("layout {} (seed {}): after opening {}: step {}: {} gave {} but the abstract tree model says {}", k, seed, path, step, short(&line), short(&observed), short(&exp)));
+                        bad = true;
+                        break;
+                    }
+                }
+            }
+            if bad {
+                break;
             }
         }
         if !bad {
